@@ -102,6 +102,9 @@ func (v *VerifC08) AddSecret(s *api_v1.Secret) bool {
 	return true
 }
 
+// DeleteSecret does what syncSecret does when the Secret is gone from the lister.
+func (v *VerifC08) DeleteSecret(key string) { v.lbc.secretStore.DeleteSecret(key) }
+
 // AddAPPolicy / AddAPLogConf feed the real App Protect configuration; the result says whether the
 // resource is usable afterwards (GetAppResource succeeds).
 func (v *VerifC08) AddAPPolicy(u *unstructured.Unstructured) bool {
